@@ -43,9 +43,10 @@ def sub_once(text, old, new, what):
 
 
 def sub_re(text, pat, new, what, count, trace=None, rule=None, flags=0):
+    """count: exact number of sites, or None for 'at least one' (tolerant of edits that add or remove a site)"""
     text, n = re.subn(pat, new, text, flags=flags)
-    if n != count:
-        raise ExtractError('%s: %s expected %d site(s) of /%s/, found %d' % (what, rule or 'rewrite', count, pat[:50], n))
+    if (count is None and n == 0) or (count is not None and n != count):
+        raise ExtractError('%s: %s expected %d site(s) of /%s/, found %d' % (what, rule or 'rewrite', count if count is not None else 1, pat[:50], n))
     if trace is not None and rule:
         trace.fire(rule, n)
     return text
@@ -111,12 +112,12 @@ def build_pixels(f, trace):
     q = 'Worker::render_tile_pixels'
     f = sub_re(f, r'\btile_size\.pow\(3\)', 'pow3(tile_size)', q, 3, trace, 'R-pow')
     f = sub_re(f, r'\btile_size\.pow\(2\)', 'pow2(tile_size)', q, 1, trace, 'R-pow')
-    f = sub_re(f, r'\btile\.corner\[0\]', 'tile.corner.x', q, 2, trace, 'R-ptindex')
-    f = sub_re(f, r'\btile\.corner\[1\]', 'tile.corner.y', q, 2, trace, 'R-ptindex')
-    f = sub_re(f, r'\btile\.corner\[2\]', 'tile.corner.z', q, 4, trace, 'R-ptindex')
-    f = sub_re(f, r'\((tile\.corner\.z \+ tile_size|tile\.corner\.z \+ k \+ 1)\)\.try_into\(\)\.unwrap\(\)', r'to_u32(\1)', q, 2, trace, 'R-tryinto')
-    f = sub_re(f, r'\bself\.out\[', 'self.out.data[', q, 4, trace, 'R-imgindex')
-    f = r_continue(f, r'self\.out\.data\[o\]\.depth >= zmax', q, trace)
+    f = sub_re(f, r'\btile\.corner\[0\]', 'tile.corner.x', q, None, trace, 'R-ptindex')
+    f = sub_re(f, r'\btile\.corner\[1\]', 'tile.corner.y', q, None, trace, 'R-ptindex')
+    f = sub_re(f, r'\btile\.corner\[2\]', 'tile.corner.z', q, None, trace, 'R-ptindex')
+    f = sub_re(f, r'\(([^()]+)\)\.try_into\(\)\.unwrap\(\)', r'to_u32(\1)', q, None, trace, 'R-tryinto')
+    f = sub_re(f, r'\bself\.out\[', 'self.out.data[', q, None, trace, 'R-imgindex')
+    f = r_continue(f, r'[^{};]+?', q, trace)
     f = r_revrange(f, 'k', 'tile_size', q, trace)
     # R-unchecked: `unsafe { *v.get_unchecked_mut(i) = e; ... }` -> `v[i] = e; ...` (the bounds check becomes an obligation)
     m = re.search(r'( *)unsafe \{\n((?:.*\n)*?)\1\}\n', f)
@@ -128,8 +129,8 @@ def build_pixels(f, trace):
     inner = '\n'.join(l[4:] if l.startswith(m.group(1) + '    ') else l for l in inner.split('\n'))
     f = f[:m.start()] + inner + f[m.end():]
     trace.fire('R-unchecked', 3)
-    f = sub_re(f, r'\((tile\.corner\.[xyz] \+ [ijk])\) as f32', r'cast_f32(\1)', q, 6, trace, 'R-cast')
-    f = sub_re(f, r'&self\.scratch\.(\w+)\[\.\.(\w+)\]', r'prefix(&self.scratch.\1, \2)', q, 6, trace, 'R-prefix')
+    f = sub_re(f, r'\(([^()]+)\) as f32', r'cast_f32(\1)', q, None, trace, 'R-cast')
+    f = sub_re(f, r'&self\.scratch\.(\w+)\[\.\.([^\]]+)\]', r'prefix(&self.scratch.\1, \2)', q, None, trace, 'R-prefix')
     # R-chunks-find: the chunk iterator advanced once per column, then the position of the first negative sample
     f = sub_re(f, r' *let mut depth = out\.chunks\(tile_size\);\n', '', q, 1)
     m = re.search(r'( *)let depth = depth\.next\(\)\.unwrap\(\);\n\s*let k = match depth\.iter\(\)\.enumerate\(\)\.find\(\|\(_, d\)\| \*\*d < 0\.0\) \{\s*Some\(\(i, _\)\) => i,\s*None => continue,\s*\};\n', f)
@@ -160,11 +161,11 @@ def build_pixels(f, trace):
 def build_recurse(f, trace):
     q = 'Worker::render_tile_recurse'
     f = sub_re(f, r'\bself\.tile_sizes\[depth\]', '*self.tile_sizes.index(depth)', q, 1, trace, 'R-index')
-    f = sub_re(f, r'\btile\.corner\[2\]', 'tile.corner.z', q, 1, trace, 'R-ptindex')
-    f = sub_re(f, r'\((tile\.corner\.z \+ tile_size \+ 1)\)\.try_into\(\)\.unwrap\(\)', r'to_u32(\1)', q, 1, trace, 'R-tryinto')
-    f = sub_re(f, r'\bself\.out\[', 'self.out.data[', q, 3, trace, 'R-imgindex')
+    f = sub_re(f, r'\btile\.corner\[2\]', 'tile.corner.z', q, None, trace, 'R-ptindex')
+    f = sub_re(f, r'\(([^()]+)\)\.try_into\(\)\.unwrap\(\)', r'to_u32(\1)', q, None, trace, 'R-tryinto')
+    f = sub_re(f, r'\bself\.out\[', 'self.out.data[', q, None, trace, 'R-imgindex')
     # R-all: `(0..n).all(|y| { let i = E; (0..n).all(|x| P) })` as two loops over the same ranges computing the conjunction (P is pure)
-    m = re.search(r'( *)if \(0\.\.tile_size\)\.all\(\|y\| \{\n\s*let i = self\.tile_row_offset\(tile, y\);\n\s*\(0\.\.tile_size\)\.all\(\|x\| (self\.out\.data\[i \+ x\]\.depth >= fill_z)\)\n\s*\}\) \{\n', f)
+    m = re.search(r'( *)if \(0\.\.tile_size\)\.all\(\|y\| \{\n\s*let i = self\.tile_row_offset\(tile, y\);\n\s*\(0\.\.tile_size\)\.all\(\|x\| ([^|\n]+)\)\n\s*\}\) \{\n', f)
     if not m:
         raise ExtractError('%s: R-all site changed' % q)
     ind = m.group(1)
@@ -174,7 +175,7 @@ def build_recurse(f, trace):
     f = sub_once(f, 'let base = Point3::from(tile.corner).cast::<f32>();', 'let base = cast_pt3(tile.corner);   // R-cast', q)
     f = sub_re(f, r'base\.(x|y|z) \+ tile_size as f32', r'add_f32(base.\1, cast_f32(tile_size))', q, 3, trace, 'R-fadd')
     trace.fire('R-cast', 4)
-    f = sub_re(f, r'self\.out\.data\[i \+ x\]\.depth = self\.out\.data\[i \+ x\]\.depth\.max\(fill_z\);', 'self.out.data[i + x].depth = max_u32(self.out.data[i + x].depth, fill_z);   // R-minmax', q, 1, trace, 'R-minmax')
+    f = sub_re(f, r'= (self\.out\.data\[[^\]]+\]\.depth)\.max\(([^()]+)\);', r'= max_u32(\1, \2);   // R-minmax', q, None, trace, 'R-minmax')
     f = r_revrange(f, 'k', 'n', q, trace)
     f = sub_re(f, r'tile\.corner\s*\+ Vector3::new\(i, j, k\) \* next_tile_size', 'pt3_add(tile.corner, vec3_scale(Vector3::new(i, j, k), next_tile_size))', q, 1, trace, 'R-opcall')
     trace.fire('R-opcall')
@@ -206,6 +207,23 @@ def build_tile(f, trace):
 
 def build_rowoff(f, trace):
     f = sub_once(f, ') -> usize {', ') -> (r: usize)\n    {', 'Worker::tile_row_offset')
+    return f
+
+
+def build_render(f, trace):
+    q = 'render'
+    f = sub_once(f, 'render_config.width().max(render_config.height())', 'max_u32_(render_config.width(), render_config.height())', q)
+    trace.fire('R-minmax')
+    f = sub_once(f, 'super::render_tiles::<F, Worker<F>, _>(', 'render_tiles::<F>(', q)
+    trace.fire('R-stub')
+    f = sub_once(f, '    for (tile, out) in tiles {\n', '    for k_ in 0..tiles.len() {\n        let (tile, out) = (&tiles[k_].0, &tiles[k_].1);   // R-iter-tuple\n', q)
+    trace.fire('R-iter-tuple')
+    f = sub_re(f, r'\btile_sizes\[0\]', '*tile_sizes.index(0)', q, 2, trace, 'R-index')
+    f = sub_re(f, r'\bout\[index\]', 'out.data[index]', q, 3, trace, 'R-imgindex')
+    f = sub_re(f, r'\bimage\[o\]', 'image.data[o]', q, 3, trace, 'R-imgindex')
+    f = sub_once(f, '    Some(image)\n}', '    let r_ = Some(image);   // R-tail\n    r_\n}', q)
+    trace.fire('R-tail')
+    f = sub_once(f, ') -> Option<Image> {', ') -> (r: Option<Image>)\n{', q)
     return f
 
 
@@ -333,26 +351,61 @@ def build(repo, trace):
     # ---- the four functions
     a, b = rsx.impl_block(vox, r"^impl<F: Function> Worker<'_, F>", 'impl Worker')
     fns = {}
+    unparsed = {}
     for name, bld in (('tile_row_offset', build_rowoff), ('render_tile_recurse', build_recurse), ('render_tile_pixels', build_pixels)):
         i, j, k = rsx.find_fn(vox, name, a, b)
-        fns[name] = bld(vox[rsx.line_start(vox, i):k], trace)
+        try:
+            fns[name] = bld(vox[rsx.line_start(vox, i):k], trace)
+        except ExtractError as e:
+            # the function's text no longer fits a rewrite rule: that function alone is undecided; its template stands in so that its
+            # callers are still checked against its contract
+            unparsed[name] = str(e)
         trace.items.append((VOX_RS, 'Worker::' + name))
     a, b = rsx.impl_block(vox, r"^impl<'a, F: Function> RenderWorker<'a, F> for Worker<'a, F>", 'impl RenderWorker for Worker')
     i, j, k = rsx.find_fn(vox, 'render_tile', a, b)
-    fns['render_tile'] = build_tile(vox[rsx.line_start(vox, i):k], trace)
+    try:
+        fns['render_tile'] = build_tile(vox[rsx.line_start(vox, i):k], trace)
+    except ExtractError as e:
+        unparsed['render_tile'] = str(e)
     trace.items.append((VOX_RS, 'Worker::render_tile (trait method of RenderWorker, as an inherent method: R-traitfn)'))
     trace.drop('everything else of fidget-raster (RenderConfig, Worker::new, Scratch::new, render / render_tiles, effects.rs, pixel.rs: unit raster); '
                'the real ShapeTracingEval / ShapeBulkEval / RenderHandle / Interval / Grad / nalgebra types (stand-ins with stated contracts)')
+    # ---- whole-image assembly: RenderConfig (fields checked), render
+    asm = ''
+    try:
+        rc = rsx.get_item(vox, r'^struct RenderConfig\b', 0, 'struct RenderConfig')
+        for fld, ty in (('image_size', 'RenderSize'), ('world_to_model', 'Matrix4<f32>')):
+            if not re.search(r'^    %s: %s,' % (fld, re.escape(ty)), rc, re.M):
+                raise ExtractError('struct RenderConfig: field %s changed' % fld)
+        rci = rsx.get_item(vox, r'^impl crate::RenderSize for RenderConfig', 0, 'impl RenderSize for RenderConfig')
+        if norm(rci) != norm('impl crate::RenderSize for RenderConfig { fn width(&self) -> u32 { self.image_size.width() } fn height(&self) -> u32 { self.image_size.height() } }'):
+            raise ExtractError('impl RenderSize for RenderConfig changed')
+        ec = rsx.get_item(vox, r"^struct EvalConfig<'a>", 0, 'struct EvalConfig')
+        if not re.search(r'^    tile_sizes: Option<TileSizes>,', ec, re.M):
+            raise ExtractError('struct EvalConfig: field tile_sizes changed')
+        i, j, k = rsx.find_fn(vox, 'render', 0, None)
+        fns['render'] = build_render(vox[rsx.line_start(vox, i):k], trace)
+        trace.items.append((VOX_RS, 'render (merge of the root tiles into the image, depth clamp); struct RenderConfig / EvalConfig fields checked'))
+        asm = open(os.path.join(HERE, 'static_asm.rs')).read()
+    except ExtractError as e:
+        for q_ in ('render', 'lemma_suffix_wf', 'lemma_root_off'):
+            trace.lost.setdefault(q_, []).append('assembly part not extracted: %s' % e)
     woven = {}
     stats = {}
-    for name, tfile in (('tile_row_offset', 'tmpl_rowoff.rs'), ('render_tile_recurse', 'tmpl_recurse.rs'), ('render_tile_pixels', 'tmpl_pixels.rs'), ('render_tile', 'tmpl_tile.rs')):
+    for name, tfile in (('tile_row_offset', 'tmpl_rowoff.rs'), ('render_tile_recurse', 'tmpl_recurse.rs'), ('render_tile_pixels', 'tmpl_pixels.rs'), ('render_tile', 'tmpl_tile.rs'), ('render', 'tmpl_render.rs')):
+        if name in unparsed:
+            trace.lost.setdefault('Worker::' + name, []).append('rewrite rule not applicable: ' + unparsed[name])
+            woven[name] = '\n'.join(l[len(GMARK):] if l.startswith(GMARK) else l for l in tmpl(tfile).split('\n'))
+            continue
+        if name not in fns:
+            continue
         try:
-            woven[name], m_, n_ = weave(tmpl(tfile), fns[name], 'Worker::' + name)
+            woven[name], m_, n_ = weave(tmpl(tfile), fns[name], ('Worker::' if name != 'render' else '') + name)
             stats[name] = (m_, n_)
             if m_ != n_:
                 trace.fire('weave-unmatched-lines', n_ - m_)
         except LostAnchor as e:
-            trace.lost.setdefault('Worker::' + name, []).append(str(e))
+            trace.lost.setdefault(('Worker::' if name != 'render' else '') + name, []).append(str(e))
             woven[name] = split_headers(fns[name])
     pre = open(os.path.join(HERE, 'static_pre.rs')).read()
     voc = open(os.path.join(HERE, 'static_voc.rs')).read()
@@ -360,7 +413,7 @@ def build(repo, trace):
             + '\n// ---------- tiles (real text of fidget-raster/src/lib.rs)\n' + tile + '\n\nimpl<const N: usize> Tile<N> {\n' + t_new + '\n\n' + t_add + '\n}\n\n' + tsr
             + "\n\nimpl<'a> TileSizesRef<'a> {\n    pub open spec fn wf(&self) -> bool { sizes_wf(self.0@) }\n" + f_index + '\n\n' + f_get + '\n\n' + f_off + '\n}\n\n'
             + '// ---------- the worker (real text of fidget-raster/src/voxel.rs)\n' + sc + '\n\n' + wk + '\n\n' + voc
-            + "\nimpl<F: Function> Worker<'_, F> {\n" + woven['tile_row_offset'] + '\n\n' + woven['render_tile_recurse'] + '\n\n' + woven['render_tile_pixels'] + '\n\n' + woven['render_tile'] + '\n}\n'
+            + "\nimpl<F: Function> Worker<'_, F> {\n" + woven['tile_row_offset'] + '\n\n' + woven['render_tile_recurse'] + '\n\n' + woven['render_tile_pixels'] + '\n\n' + woven['render_tile'] + '\n}\n' + (asm + '\n' + woven['render'] + '\n' if asm and 'render' in woven else '')
             + '\n} // verus!\nfn main() {}\n')
     inj = Injector(text, trace)
     inj.spec('Tile::new', 'r: Tile<N>', '\n        ensures r.corner == corner\n')
@@ -375,9 +428,13 @@ def build(repo, trace):
         obls.append(Obligation('voxel::' + f, 'voxel', f, props=PROPS, rlimit=100))
     for f in ('Tile::new', 'Tile::add', 'TileSizesRef::index', 'TileSizesRef::get', 'TileSizesRef::pixel_offset'):
         obls.append(Obligation('voxel::' + f, 'voxel', f, props=PROPS))
+    if asm and 'render' in woven:
+        obls.append(Obligation('voxel::render', 'voxel', 'render', props=PROPS, rlimit=100, note='merge of the root tiles into the image with the depth clamp; render_tiles is a stand-in'))
+        for l in ('lemma_suffix_wf', 'lemma_root_off'):
+            obls.append(Obligation('voxel::' + l, 'voxel', l, props=PROPS, kind='lemma'))
     for l in ('find_neg', 'div_ceil_u32'):
         obls.append(Obligation('voxel::' + l, 'voxel', l, props=PROPS, kind='lemma', note='verified model of a library idiom (see the rewrite rule in its doc comment)'))
     for l in ('lemma_pv_start', 'lemma_pv_end', 'lemma_pv_step', 'lemma_pv_pre', 'lemma_vox_transfer', 'lemma_in_box', 'lemma_q', 'lemma_q_inj', 'lemma_q_of', 'lemma_zslabs',
               'lemma_sizes_desc', 'lemma_mod_shift', 'lemma_loc_bound', 'lemma_loc_inj', 'lemma_divmod_idx', 'lemma_off_bound', 'lemma_off', 'lemma_off_inj'):
         obls.append(Obligation('voxel::' + l, 'voxel', l, props=PROPS, kind='lemma'))
-    return {'texts': {'base': inj.s}, 'obligations': obls, 'canary_fns': ['Worker::render_tile', 'Worker::render_tile_recurse', 'Worker::render_tile_pixels'], 'weave': stats}
+    return {'texts': {'base': inj.s}, 'obligations': obls, 'canary_fns': ['Worker::render_tile', 'Worker::render_tile_recurse', 'Worker::render_tile_pixels', 'render'], 'weave': stats}
